@@ -213,6 +213,16 @@ impl<'a> Run<'a> {
                     };
                     let want = model_range(&win, s.as_deref(), e.as_deref(), order);
                     self.rep.bump("c07/range_compared");
+                    if got == want && self.rep.count("c07/range_compared") % 5 == 0 {
+                        // the derived iterators must be projections of the same window
+                        let ks: Vec<Vec<u8>> = with_view(app, path, access, |v| v.range_keys(s.as_deref(), e.as_deref(), order).collect());
+                        let vs: Vec<Vec<u8>> = with_view(app, path, access, |v| v.range_values(s.as_deref(), e.as_deref(), order).collect());
+                        self.rep.bump("c07/range_keys_values_compared");
+                        if ks != want.iter().map(|x| x.0.clone()).collect::<Vec<_>>() || vs != want.iter().map(|x| x.1.clone()).collect::<Vec<_>>() {
+                            self.fail(format!("view-range-keys-or-values-differ:{}", class), format!("path {:?} range_keys/range_values({:?},{:?},{:?}) differ from the window", show_path(path), s.as_ref().map(|x| short(x)), e.as_ref().map(|x| short(x)), order));
+                            return;
+                        }
+                    }
                     if got != want {
                         let bound_class = match (&s, &e) {
                             (None, None) => "unbounded",
